@@ -717,7 +717,11 @@ where
         values: &[ArrayRef],
         opt_filter: Option<&BooleanArray>,
     ) -> Result<Vec<ArrayRef>> {
-        assert_eq!(values.len(), 1, "one argument to merge_batch");
+        // `values` holds the value column followed by the (constant) percentile argument
+        assert!(
+            !values.is_empty(),
+            "at least one argument to convert_to_state"
+        );
 
         let input_array = values[0].as_primitive::<T>();
 
